@@ -124,6 +124,7 @@ def shards(tier):
         for buf in g.get("bufs", []):
             for i in range(SLICES[tier]):
                 out.append({"buf": buf, "kind": "std", "geom": g, "slice": [i, SLICES[tier]]})
+    out.append({"buf": 8192, "kind": "history", "geom": {"W": 3}, "slice": [0, 1]})
     for buf in ([8192] if tier == "quick" else [512, 8192]):
         for g in _ext_geoms(tier):
             k = 16 if tier == "quick" else 48
@@ -152,6 +153,19 @@ def run_shard(shard, ctx):
     if shard["kind"] == "ext" and g.get("thin"):
         for n, case in enumerate(sliced(_ext_cases(g), i, k)):
             if n % g["thin"] == 0:
+                run_case(case, ctx)
+        return
+    if shard["kind"] == "history":
+        # images of both L2 entry formats with the same number of entries per table, one after the other in one process (the
+        # standard one first for 1024 and 4096 entries, the extended one first for 2048), the extended window in the upper half
+        # of its table
+        for c, order in ((13, "std-ext"), (14, "ext-std"), (15, "std-ext")):
+            gs = dict(cb=c, ver=3, W=3, at="straddle", alpha="V3", layout="l1_first", cut=0, hl=112)
+            ge = dict(cb=c + 1, kind="pair", at="upper")
+            std = [{"kind": "std", "geom": gs, "states": st, "slots": sl}
+                   for st, sl in (([B.N, B.U, B.N, B.Z], [1, None, 0, None]), ([B.Z, B.N, B.N, B.U], [None, 0, 2, None]))]
+            ext = [c_ for n, c_ in enumerate(_ext_cases(ge)) if n % 97 == 0][:6]
+            for case in (std + ext if order == "std-ext" else ext + std) * 2:
                 run_case(case, ctx)
         return
     if shard["kind"] == "std":
@@ -334,6 +348,8 @@ def _case_ext(case, ctx):
         at = cs // 16 - 1  # the pair sits on both sides of the end of the first extended-L2 table (16-byte entries)
     elif g.get("at") == "deep":
         at = 8193
+    elif g.get("at") == "upper":
+        at = (cs // 16) * 3 // 4 + 1
     total = at + len(clusters) + 1
     size = total * cs - (sub // 2 if len(clusters) == 1 else 0)
     states = clusters + [{"kind": B.U, "sub": ["u"] * 32}]
